@@ -701,9 +701,12 @@ class Model:
                 self._in_progress.discard(key)
             if hits == self._cycle_hits:
                 self._orig_cache[key] = res  # nothing provisional was read: exact
-            elif self._prov.get(key) != res:
-                self._prov[key] = res | self._prov.get(key, frozenset())
-                self._prov_changed = True
+            else:
+                old = self._prov.get(key, frozenset())
+                res = res | old
+                if res != old:
+                    self._prov[key] = res
+                    self._prov_changed = True
             return res
         # outermost query
         self._prov = {}
@@ -718,8 +721,10 @@ class Model:
                 self._in_progress.discard(key)
             if hits == self._cycle_hits:
                 break
-            if self._prov.get(key) != res:
-                self._prov[key] = res | self._prov.get(key, frozenset())
+            old = self._prov.get(key, frozenset())
+            res = res | old
+            if res != old:
+                self._prov[key] = res
                 self._prov_changed = True
             if not self._prov_changed:
                 break
@@ -759,7 +764,7 @@ class Model:
         if isinstance(e, ast.NamedExpr):
             return self.origins_of(scope, e.value, depth + 1)
         if isinstance(e, ast.Tuple) and isinstance(e.ctx, ast.Load):
-            return {("tuple", tuple(frozenset(self.origins_of(scope, x, depth + 1)) for x in e.elts), None)}
+            return {_cap_tuple(("tuple", tuple(frozenset(self.origins_of(scope, x, depth + 1)) for x in e.elts), None))}
         if isinstance(e, ast.Subscript):
             return self.elem_origins(scope, e.value, depth + 1, for_subscript=True)
         if isinstance(e, ast.Starred):
@@ -875,7 +880,7 @@ class Model:
                 for kw in call.keywords:
                     if kw.arg in fields:
                         elems[fields.index(kw.arg)] = frozenset(self.origins_of(scope, kw.value, depth + 1))
-                return {("tuple", tuple(elems), cls)}
+                return {_cap_tuple(("tuple", tuple(elems), cls))}
             return {("inst", cls)}
         if k == "ext":
             name = c[1]
@@ -1215,6 +1220,27 @@ def _nest(o):
         d += 1
         o = o[1]
     return d
+
+
+def _tdepth(o, seen=0):
+    """Nesting depth of tuple/partial origins (their elements are sets of origins)."""
+    if seen > 6 or not isinstance(o, tuple) or not o:
+        return 0
+    if o[0] == "tuple":
+        return 1 + max((_tdepth(x, seen + 1) for el in o[1] for x in el), default=0)
+    if o[0] == "partial":
+        return 1 + max((_tdepth(x, seen + 1) for x in o[1]), default=0)
+    return 0
+
+
+def _cap_tuple(o):
+    """Widening for structured origins: a tuple that (through a cyclic value flow) contains tuples ... deeper than 3 levels has
+    its elements replaced by 'unknown', so that the fixed point terminates."""
+    if _tdepth(o) <= 3:
+        return o
+    if o[0] == "tuple":
+        return ("tuple", tuple(frozenset({("unknown", "deep")}) for _ in o[1]), o[2] if len(o) > 2 else None)
+    return ("unknown", "deep")
 
 
 def _cap(o):
